@@ -3,7 +3,7 @@
 # Each must be caught (check exits 1). Prints a table; exit 0 iff all were caught.
 cd /verif
 fail=0
-for d in seeded/${1:-*}; do
+for d in /verif/seeded/${1:-*}; do
   [ -f "$d/meta.json" ] || continue
   P=$(python3 -c "import json;print(json.load(open('$d/meta.json'))['property'])")
   line=$(tools/seedtest.sh "$d" "$P" 2>&1 | grep '^SEED')
